@@ -35,7 +35,28 @@ impl Clone for Example { #[verifier::external_body] fn clone(&self) -> (r: Self)
 pub uninterp spec fn req_of(cfg: RouterConfig, e: Example) -> Option<Request>;
 pub uninterp spec fn matched(r: Router<Rule>, q: Request) -> Seq<Arc<Route<Rule>>>;
 pub uninterp spec fn action_of(routes: Seq<Arc<Route<Rule>>>, q: Request) -> int;        // the merged action (its immutable core), unit act
-pub uninterp spec fn live_status(a: int, example_status: u16, fallback: u16) -> (u16, u16); // (status sent to the client, status the backend answered), unit act
+pub uninterp spec fn status_at(a: int, code: u16) -> u16;                                   // the action's status answer at a response status (0 = request time), unit act
+// (status sent to the client, status the backend answered): the live two-phase decision — the DEFINITION unit act verifies
+// Action::get_final_status_code_with_fallback against (a status decided at request time answers before any backend is called; an example status
+// of 0 means "not given" and falls back)
+pub open spec fn live_status(a: int, example_status: u16, fallback: u16) -> (u16, u16) {
+    let s0 = status_at(a, 0);
+    if s0 != 0 { (s0, s0) } else { let b = if example_status == 0 { fallback } else { example_status }; (status_at(a, b), b) }
+}
+// ---- the unit trace (which units / rules were applied): an abstract value; every pipeline question leaves its mark as a named function of
+// (trace so far, action, status asked with)
+pub uninterp spec fn ut0() -> int;
+pub uninterp spec fn ut_action(t: int, routes: Seq<Arc<Route<Rule>>>, q: Request) -> int;
+pub uninterp spec fn ut_status(t: int, a: int, code: u16) -> int;
+pub uninterp spec fn ut_headers(t: int, a: int, code: u16) -> int;
+pub uninterp spec fn ut_body_filter(t: int, stage: int, fed: Seq<u8>, data: Seq<u8>) -> int;
+pub uninterp spec fn ut_body_end(t: int, stage: int, fed: Seq<u8>) -> int;
+pub uninterp spec fn ut_log(t: int, a: int, code: u16) -> int;
+pub uninterp spec fn ut_squash(t: int) -> int;
+pub open spec fn ut_status2(t: int, a: int, example_status: u16, fallback: u16) -> int {
+    let t1 = ut_status(t, a, 0);
+    if status_at(a, 0) != 0 { t1 } else { ut_status(t1, a, if example_status == 0 { fallback } else { example_status }) }
+}
 pub uninterp spec fn hdrs_at(a: int, code: u16) -> Seq<Header>;                            // header filters applied to an empty list at a status
 pub uninterp spec fn body_stage_at(a: int, code: u16) -> Option<int>;                      // the body filter chain built at a status
 pub uninterp spec fn body_out(stage: int, input: Seq<u8>) -> Seq<u8>;                      // filter(input) ++ end()
@@ -49,25 +70,51 @@ impl Router<Rule> {
     #[verifier::external_body] pub fn match_request(&self, request: &Request) -> (r: Vec<Arc<Route<Rule>>>) ensures r@ == matched(*self, *request) { unimplemented!() }
     #[verifier::external_body] pub fn trace_request(&self, request: &Request) -> Vec<Trace<Rule>> { unimplemented!() }
 }
-impl UnitTrace {
-    #[verifier::external_body] pub fn default() -> UnitTrace { unimplemented!() }
-    #[verifier::external_body] pub fn squash_with_target_unit_traces(&mut self) { unimplemented!() }
+#[verifier::external_body] #[verifier::accept_recursive_types(T)] pub struct LinkedHashSet<T> { h: std::marker::PhantomData<T> }
+impl<T> LinkedHashSet<T> {
+    pub uninterp spec fn lv(&self) -> int;
+    pub uninterp spec fn lempty(&self) -> bool;
+    #[verifier::external_body] pub fn is_empty(&self) -> (r: bool) ensures r == self.lempty() { unimplemented!() }
 }
+pub uninterp spec fn ut_diff(t: int, ids: Seq<String>) -> LinkedHashSet<String>;
+pub uninterp spec fn ut_has_rule(t: int, id: Seq<char>) -> bool;
+pub uninterp spec fn ut_rule_ids(t: int) -> LinkedHashSet<String>;
+pub uninterp spec fn ut_unit_ids(t: int) -> LinkedHashSet<String>;
+impl UnitTrace {
+    pub uninterp spec fn v(&self) -> int;
+    #[verifier::external_body] pub fn default() -> (r: UnitTrace) ensures r.v() == ut0() { unimplemented!() }
+    #[verifier::external_body] pub fn squash_with_target_unit_traces(&mut self) ensures final(self).v() == ut_squash(old(self).v()) { unimplemented!() }
+    #[verifier::external_body] pub fn diff(&self, other: Vec<String>) -> (r: LinkedHashSet<String>) ensures r == ut_diff(self.v(), other@) { unimplemented!() }
+    #[verifier::external_body] pub fn rule_ids_contains(&self, rule_id: &str) -> (r: bool) ensures r == ut_has_rule(self.v(), rule_id@) { unimplemented!() }
+    #[verifier::external_body] pub fn get_rule_ids_applied(&self) -> (r: LinkedHashSet<String>) ensures r == ut_rule_ids(self.v()) { unimplemented!() }
+    #[verifier::external_body] pub fn get_unit_ids_applied(&self) -> (r: LinkedHashSet<String>) ensures r == ut_unit_ids(self.v()) { unimplemented!() }
+}
+pub uninterp spec fn rloop(router: Router<Rule>, max_hops: u8, e: Example, domains: Seq<String>) -> RedirectionLoop;   // unit misc: RedirectionLoop::compute
+pub uninterp spec fn rl_bad(l: RedirectionLoop) -> (bool, bool);                                                       // (too many hops, loop)
 impl RedirectionLoop {
-    #[verifier::external_body] pub fn from_example(router: &Router<Rule>, max_hops: u8, example: &Example, project_domains: Vec<String>) -> RedirectionLoop { unimplemented!() }
+    #[verifier::external_body] pub fn from_example(router: &Router<Rule>, max_hops: u8, example: &Example, project_domains: Vec<String>) -> (r: RedirectionLoop)
+        ensures r == rloop(*router, max_hops, *example, project_domains@) { unimplemented!() }
+    #[verifier::external_body] pub fn has_error_too_many_hops(&self) -> (r: bool) ensures r == rl_bad(*self).0 { unimplemented!() }
+    #[verifier::external_body] pub fn has_error_loop(&self) -> (r: bool) ensures r == rl_bad(*self).1 { unimplemented!() }
 }
 impl Action {
     pub uninterp spec fn core(&self) -> int;     // what the answers depend on; the &mut methods only record applied rule ids
     #[verifier::external_body] pub fn from_routes_rule(routes: Vec<Arc<Route<Rule>>>, request: &Request, unit_trace: Option<&mut UnitTrace>) -> (r: Action)
-        ensures r.core() == action_of(routes@, *request) { unimplemented!() }
+        ensures r.core() == action_of(routes@, *request), match unit_trace { Some(t) => final(t).v() == ut_action(t.v(), routes@, *request), None => true } { unimplemented!() }
+    #[verifier::external_body] pub fn get_status_code(&mut self, response_status_code: u16, unit_trace: Option<&mut UnitTrace>) -> (r: u16)
+        ensures final(self).core() == old(self).core(), r == status_at(old(self).core(), response_status_code),
+            match unit_trace { Some(t) => final(t).v() == ut_status(t.v(), old(self).core(), response_status_code), None => true } { unimplemented!() }
     #[verifier::external_body] pub fn get_final_status_code_with_fallback(&mut self, response_status_code: u16, fallback_status_code: u16, unit_trace: &mut UnitTrace) -> (r: (u16, u16))
-        ensures final(self).core() == old(self).core(), r == live_status(old(self).core(), response_status_code, fallback_status_code) { unimplemented!() }
+        ensures final(self).core() == old(self).core(), r == live_status(old(self).core(), response_status_code, fallback_status_code),
+            final(unit_trace).v() == ut_status2(old(unit_trace).v(), old(self).core(), response_status_code, fallback_status_code) { unimplemented!() }
     #[verifier::external_body] pub fn filter_headers(&mut self, headers: Vec<Header>, response_status_code: u16, add_rule_ids_header: bool, unit_trace: Option<&mut UnitTrace>) -> (r: Vec<Header>)
-        ensures final(self).core() == old(self).core(), (headers@.len() == 0 && !add_rule_ids_header) ==> r@ == hdrs_at(old(self).core(), response_status_code) { unimplemented!() }
+        ensures final(self).core() == old(self).core(), (headers@.len() == 0 && !add_rule_ids_header) ==> r@ == hdrs_at(old(self).core(), response_status_code),
+            match unit_trace { Some(t) => final(t).v() == ut_headers(t.v(), old(self).core(), response_status_code), None => true } { unimplemented!() }
     #[verifier::external_body] pub fn create_filter_body(&mut self, response_status_code: u16, headers: &[Header]) -> (r: Option<FilterBodyAction>)
         ensures final(self).core() == old(self).core(), headers@.len() == 0 ==> (match r { Some(f) => body_stage_at(old(self).core(), response_status_code) == Some(f.stage()) && f.fed() == Seq::<u8>::empty() && f.out() == Seq::<u8>::empty(), None => body_stage_at(old(self).core(), response_status_code) is None }) { unimplemented!() }
     #[verifier::external_body] pub fn should_log_request(&mut self, allow_log_config: bool, response_status_code: u16, unit_trace: Option<&mut UnitTrace>) -> (r: bool)
-        ensures final(self).core() == old(self).core(), allow_log_config ==> r == log_at(old(self).core(), response_status_code) { unimplemented!() }
+        ensures final(self).core() == old(self).core(), allow_log_config ==> r == log_at(old(self).core(), response_status_code),
+            match unit_trace { Some(t) => final(t).v() == ut_log(t.v(), old(self).core(), response_status_code), None => true } { unimplemented!() }
 }
 impl FilterBodyAction {
     pub uninterp spec fn stage(&self) -> int;
@@ -75,9 +122,11 @@ impl FilterBodyAction {
     pub uninterp spec fn out(&self) -> Seq<u8>;      // output produced so far
     // ASSUMED: one chunk then end() yields body_out(stage, chunk); filters insert Strings into a UTF-8 body: the output is UTF-8 (listed)
     #[verifier::external_body] pub fn filter(&mut self, data: Vec<u8>, unit_trace: Option<&mut UnitTrace>) -> (r: Vec<u8>)
-        ensures final(self).stage() == old(self).stage(), final(self).fed() == old(self).fed() + data@, final(self).out() == old(self).out() + r@ { unimplemented!() }
+        ensures final(self).stage() == old(self).stage(), final(self).fed() == old(self).fed() + data@, final(self).out() == old(self).out() + r@,
+            match unit_trace { Some(t) => final(t).v() == ut_body_filter(t.v(), old(self).stage(), old(self).fed(), data@), None => true } { unimplemented!() }
     #[verifier::external_body] pub fn end(&mut self, unit_trace: Option<&mut UnitTrace>) -> (r: Vec<u8>)
-        ensures final(self).stage() == old(self).stage(), old(self).out() + r@ == body_out(old(self).stage(), old(self).fed()), valid_utf8(old(self).fed()) ==> valid_utf8(old(self).out() + r@) { unimplemented!() }
+        ensures final(self).stage() == old(self).stage(), old(self).out() + r@ == body_out(old(self).stage(), old(self).fed()), valid_utf8(old(self).fed()) ==> valid_utf8(old(self).out() + r@),
+            match unit_trace { Some(t) => final(t).v() == ut_body_end(t.v(), old(self).stage(), old(self).fed()), None => true } { unimplemented!() }
 }
 pub uninterp spec fn str_of(b: Seq<u8>) -> Seq<char>;
 #[verifier::external_body] pub fn outl_utf8(b: &Vec<u8>) -> (r: &str) requires valid_utf8(b@) ensures r@ == str_of(b@)
@@ -192,6 +241,114 @@ impl ImpactOutput {
     //@| looptail 0: proof { assert(impacts@ =~= im0.push(impacts@.last())); assert forall|i: int| 0 <= i < impacts@.len() implies impact_ok(#[trigger] impacts@[i], rt) by { if i < im0.len() { assert(impacts@[i] == im0[i]); } } }
 }
 //@@ unrename Response
+// ---------------------------------------------------------------- test-example analysis (src/api/test_examples.rs)
+// What is decided: the verdict on an example is taken from the unit trace THE LIVE PIPELINE leaves for that example — the two-phase status
+// decision (an example status of 0 counts as "not given", as in the explain and impact analyses), header and body filters asked with the status the
+// BACKEND answered, the logging decision with the status SENT TO THE CLIENT — and every example is counted once.
+pub enum Call {
+    Failed { rule: Rule, example: Example, rule_ids: LinkedHashSet<String>, unit_ids: LinkedHashSet<String>, not_applied: LinkedHashSet<String>, rl: Option<RedirectionLoop> },
+    Errored { rule: Rule, example: Example, msg: Seq<char> },
+    Counted,
+}
+#[verifier::external_body] pub struct TestExamplesOutput { x: u8 }
+pub uninterp spec fn err_text(e: HttpError) -> Seq<char>;
+impl HttpError { #[verifier::external_body] pub fn to_string(&self) -> (r: String) ensures r@ == err_text(*self) { unimplemented!() } }
+pub uninterp spec fn handler_of(r: Route<Rule>) -> Rule;
+impl Route<Rule> { #[verifier::external_body] pub fn handler(&self) -> (r: &Rule) ensures *r == handler_of(*self) { unimplemented!() } }
+impl TestExamplesOutput {
+    pub uninterp spec fn calls(&self) -> Seq<Call>;       // what was recorded, in order (the counters and the first-ten tables are functions of it)
+    #[verifier::external_body] pub fn add_failed_example(&mut self, rule: &Rule, example: Example, rule_ids_applied: LinkedHashSet<String>, unit_ids_applied: LinkedHashSet<String>,
+            unit_ids_not_applied_anymore: LinkedHashSet<String>, redirection_loop: Option<RedirectionLoop>)
+        ensures final(self).calls() == old(self).calls().push(Call::Failed { rule: *rule, example, rule_ids: rule_ids_applied, unit_ids: unit_ids_applied, not_applied: unit_ids_not_applied_anymore, rl: redirection_loop }) { unimplemented!() }
+    #[verifier::external_body] pub fn add_errored_example(&mut self, rule: &Rule, example: Example, error: String)
+        ensures final(self).calls() == old(self).calls().push(Call::Errored { rule: *rule, example, msg: error@ }) { unimplemented!() }
+    #[verifier::external_body] pub fn increment_example_count(&mut self) ensures final(self).calls() == old(self).calls().push(Call::Counted) { unimplemented!() }
+}
+#[verifier::external_body] pub fn outl_ids_unwrap(e: &Example) -> (r: Vec<String>) requires e.unit_ids_applied is Some ensures r@ == e.unit_ids_applied.unwrap()@
+{ /* verbatim: example.unit_ids_applied.clone().unwrap() */ unimplemented!() }
+#[verifier::external_body] pub fn outl_example_clone3(e: &Example) -> (r: Example) ensures r == *e { /* verbatim: example.clone() */ unimplemented!() }
+// the trace the live pipeline leaves for an example (statement: the analyses replay the pipeline calls in proxy order)
+pub open spec fn response_trace(router: Router<Rule>, e: Example, q: Request) -> int {      // up to the response: status decision, header filters, body filters
+    let ms = matched(router, q); let a = action_of(ms, q);
+    let (fin, back) = live_status(a, ex_status(e), 200);
+    let t1 = ut_status2(ut_action(ut0(), ms, q), a, ex_status(e), 200);
+    let t2 = ut_headers(t1, a, back);
+    match body_stage_at(a, back) { None => t2, Some(st) => ut_body_end(ut_body_filter(t2, st, Seq::<u8>::empty(), vstd::utf8::encode_utf8(template())), st, vstd::utf8::encode_utf8(template())) }
+}
+pub open spec fn live_trace(router: Router<Rule>, e: Example, q: Request) -> int {
+    let a = action_of(matched(router, q), q);
+    ut_squash(ut_log(response_trace(router, e, q), a, live_status(a, ex_status(e), 200).0))
+}
+// what one example adds to the results
+pub open spec fn example_calls(router: Router<Rule>, e: Example, id: Seq<char>, route: Route<Rule>, max_hops: u8, domains: Seq<String>) -> Seq<Call> {
+    if e.unit_ids_applied is None { Seq::<Call>::empty() } else {
+        match req_of(*router.config, e) {
+            None => Seq::<Call>::empty(),       // reported as errored (the message is the conversion's), not counted
+            Some(q) => {
+                let t = live_trace(router, e, q);
+                let gone = ut_diff(t, e.unit_ids_applied.unwrap()@);
+                let has = ut_has_rule(t, id);
+                if (e.must_match && (!gone.lempty() || !has)) || (!e.must_match && has) {
+                    seq![Call::Failed { rule: handler_of(route), example: e, rule_ids: ut_rule_ids(t), unit_ids: ut_unit_ids(t), not_applied: gone, rl: None::<RedirectionLoop> }, Call::Counted]
+                } else {
+                    let l = rloop(router, max_hops, e, domains);
+                    if rl_bad(l).0 || rl_bad(l).1 { seq![Call::Failed { rule: handler_of(route), example: e, rule_ids: ut_rule_ids(t), unit_ids: ut_unit_ids(t), not_applied: gone, rl: Some(l) }, Call::Counted] }
+                    else { seq![Call::Counted] }
+                }
+            },
+        }
+    }
+}
+impl TestExamplesOutput {
+    //@@ fn src/api/test_examples.rs :: impl TestExamplesOutput / fn test_example
+    //@| ensures (example.unit_ids_applied is Some && req_of(*router.config, *example) is None) ==> exists|m: Seq<char>| final(results).calls() == old(results).calls().push(Call::Errored { rule: handler_of(*route), example: *example, msg: m }),
+    //@|     !(example.unit_ids_applied is Some && req_of(*router.config, *example) is None) ==> final(results).calls() == old(results).calls() + example_calls(*router, *example, id@, *route, max_hops, project_domains@),
+    //@| entry broadcast use axiom_iter_seq_vec;
+    //@| outline `body.into()` => `outl_body_bytes(body)`
+    //@| outline `example.unit_ids_applied.clone().unwrap()` => `outl_ids_unwrap(example)`
+    //@| outline `example.clone()`#0 => `outl_example_clone3(example)`
+    //@| outline `example.clone()`#1 => `outl_example_clone3(example)`
+    //@| outline `example.clone()`#2 => `outl_example_clone3(example)`
+    //@| after `let body = "<!DOCTYPE html> <html> <head> </head> <body> </body> </html>";`: proof { assume_template(body@); }
+}
+// ---------------------------------------------------------------- unit-id analysis (src/api/unit_ids.rs)
+// What is decided: the unit ids recorded for an example are read off the trace the live pipeline leaves up to the response (same two-phase status
+// decision, header and body filters asked with the backend's status). Stated as an assertion at the point where the ids are read; the shape of the
+// output map is not specified here.
+//@@ item src/api/unit_ids.rs :: struct RuleOutput
+//@@ item src/api/unit_ids.rs :: struct UnitIdsOutput
+pub uninterp spec fn routes_map(r: Router<Rule>) -> Map<String, Arc<Route<Rule>>>;
+// ASSUMED (trusted, listed): String keys obey the hash-table key model
+#[verifier::external_body] pub broadcast proof fn axiom_string_key_model() ensures #[trigger] vstd::std_specs::hash::obeys_key_model::<String>() {}
+impl Router<Rule> {
+    #[verifier::external_body] pub fn routes(&self) -> (r: &HashMap<String, Arc<Route<Rule>>>) ensures r@ == routes_map(*self) { unimplemented!() }
+}
+pub uninterp spec fn lhs_seq(l: LinkedHashSet<String>) -> Seq<String>;
+#[verifier::external_body] pub fn outl_ids_collect(l: LinkedHashSet<String>) -> (r: Vec<String>) ensures r@ == lhs_seq(l)
+{ /* verbatim: unit_trace.get_unit_ids_applied().into_iter().collect() */ unimplemented!() }
+impl UnitIdsOutput {
+    //@@ fn src/api/unit_ids.rs :: impl UnitIdsOutput / fn create_result -> r
+    //@| ensures true,
+    //@| opt r5:0
+    //@| opt r6i:0
+    //@| opt r5:1
+    //@| opt r6i:1
+    //@| attr #[verifier::loop_isolation(false)]
+    //@| entry broadcast use axiom_iter_seq_vec; broadcast use vstd::std_specs::hash::group_hash_axioms; broadcast use axiom_string_key_model;
+    //@| outline `body.into()` => `outl_body_bytes(body)`
+    //@| outline `unit_trace.get_unit_ids_applied().into_iter().collect()` => `outl_ids_collect(unit_trace.get_unit_ids_applied())`
+    //@| outline `example.clone()`#0 => `outl_example_clone3(example)`
+    //@| outline `example.clone()`#1 => `outl_example_clone3(example)`
+    //@| loopbefore 0: let ghost n0 = routes_map(*router).len() as int; proof { assert(vf_it0_rem0.len() == n0); }
+    //@| loop 0: invariant 0 <= vf_it0_idx <= n0, vf_it0_rem0.len() == n0, vf_it0.remaining() == vf_it0_rem0.skip(vf_it0_idx),
+    //@|     decreases n0 - vf_it0_idx,
+    //@| loopbefore 1: let ghost n1 = (*examples).unwrap()@.len() as int; proof { assert(vf_it1_rem0.len() == n1); }
+    //@| loop 1: invariant 0 <= vf_it1_idx <= n1, vf_it1_rem0.len() == n1, vf_it1.remaining() == vf_it1_rem0.skip(vf_it1_idx),
+    //@|         0 <= vf_it0_idx <= n0, vf_it0_rem0.len() == n0, vf_it0.remaining() == vf_it0_rem0.skip(vf_it0_idx),
+    //@|     decreases n1 - vf_it1_idx,
+    //@| after `let body = "<!DOCTYPE html> <html> <head> </head> <body> </body> </html>";`: proof { assume_template(body@); }
+    //@| after `unit_trace.squash_with_target_unit_traces();`: proof { assert(unit_trace.v() == ut_squash(response_trace(*router, *example, request))); }
+}
 // the sample document is a literal of the source: named here
 #[verifier::external_body] pub proof fn assume_template(b: Seq<char>) ensures b == template() {}
 
